@@ -20,7 +20,7 @@
 // Trace line (see spec/CarbonsTrace.tla):
 //   {"e":"Recv","c":..,"w":..,"i":..,
 //    "x":{"own":B,"ofrom":..,"hasfrom":bool,"oto":..,"oid":..,"obody":..,"otype":..},
-//    "inners":[{from,to,id,body,type}...],   the wrapped message(s): what an unwrap may present
+//    "inners":[{from,to,id,body,type,priv,stamp}...],   the wrapped message(s): what an unwrap may present
 //    "never":[{id,body}...],                 second-level messages (wrapped inside the wrapped one)
 //    "shown":[{ch,from,to,id,body,type,fwd}...]}
 #include "fixture.h"
@@ -109,7 +109,15 @@ struct Msg {  // a concrete message: the fields the application can tell apart
     QString from, to, id, body, type;
     QString extra;  // further payload XML
     bool hasFrom = true;
+    bool priv = false;          // carries <private xmlns='urn:xmpp:carbons:2'/>
+    QString stamp;              // XEP-0203 delay stamp (UTC, ISO), "" = none
+    QString neverId, neverBody; // a message wrapped in a <forwarded/> of this message's own: must never be shown
 };
+
+QString stampOf(const QXmppMessage &m)
+{
+    return m.stamp().isValid() ? m.stamp().toUTC().toString(Qt::ISODate) : QString();
+}
 
 QString msgXml(const Msg &m, const QString &children = {}, bool withNs = false)
 {
@@ -136,7 +144,8 @@ QString carbon(const QString &tag, const QString &innerXml, const QString &carbo
 
 QJsonObject msgJson(const Msg &m)
 {
-    return { { "from", m.from }, { "to", m.to }, { "id", m.id }, { "body", m.body }, { "type", m.type } };
+    return { { "from", m.from }, { "to", m.to }, { "id", m.id }, { "body", m.body }, { "type", m.type },
+             { "priv", m.priv }, { "stamp", m.stamp } };
 }
 
 struct Env {
@@ -288,6 +297,29 @@ Msg makeInner(const QString &kind, const Env &e, Rnd &r, const QString &id, cons
         m.extra = "<thread>" + esc(r.text()) + "</thread><subject>" + esc(r.text()) + "</subject>"
                   "<request xmlns=\"urn:xmpp:receipts\"/><stanza-id xmlns=\"urn:xmpp:sid:0\" by=\"" + esc(e.B) + "\" id=\"" + esc(r.word()) + "\"/>"
                   "<markable xmlns=\"urn:xmpp:chat-markers:0\"/><active xmlns=\"http://jabber.org/protocol/chatstates\"/>";
+    } else if (kind == "private" || kind == "noCopy" || kind == "delay" || kind == "headline" || kind == "groupchat" || kind == "fwdInside") {
+        // the other XEP-0280 / XEP-0334 / XEP-0203 / XEP-0297 markers an inner message may carry itself
+        m.from = "bob@example.net/" + r.word();
+        m.to = e.B + "/" + e.R;
+        if (kind == "private") {
+            m.extra = "<private xmlns=\"urn:xmpp:carbons:2\"/>";
+            m.priv = true;
+        } else if (kind == "noCopy") {
+            m.extra = "<no-copy xmlns=\"urn:xmpp:hints\"/><no-store xmlns=\"urn:xmpp:hints\"/>";
+        } else if (kind == "delay") {
+            m.stamp = "2002-09-10T23:08:25Z";
+            m.extra = "<delay xmlns=\"urn:xmpp:delay\" from=\"example.net\" stamp=\"" + m.stamp + "\"/>";
+        } else if (kind == "headline") {
+            m.type = "headline";
+        } else if (kind == "groupchat") {
+            m.type = "groupchat";
+            m.from = "room@muc.example.net/" + r.word();
+        } else {
+            m.neverId = id + "x";
+            m.neverBody = "third " + r.text();
+            m.extra = "<forwarded xmlns=\"urn:xmpp:forward:0\"><message xmlns=\"jabber:client\" from=\"carol@example.net/x\" to=\"" +
+                esc(e.B) + "\" id=\"" + m.neverId + "\" type=\"chat\"><body>" + esc(m.neverBody) + "</body></message></forwarded>";
+        }
     } else {
         fprintf(stderr, "carbons: unknown inner kind %s\n", qPrintable(kind));
         exit(2);
@@ -418,6 +450,10 @@ void runBehaviour(Ctx &ctx, const QString &caseId, const QJsonObject &b, int nRa
                 Msg lvl1 = in1;
                 lvl1.body.clear();
                 lvl1.extra.clear();
+                lvl1.priv = false;
+                lvl1.stamp.clear();
+                lvl1.neverId.clear();
+                lvl1.neverBody.clear();
                 auto lvl1Xml = msgXml(lvl1, carbon(w == "nestedSent" ? "received" : "sent", msgXml(in2, {}, true)), true);
                 children = carbon(w == "nestedSent" ? "sent" : "received", lvl1Xml);
                 in1 = lvl1;
@@ -444,6 +480,12 @@ void runBehaviour(Ctx &ctx, const QString &caseId, const QJsonObject &b, int nRa
                 exit(2);
             }
 
+            // a message wrapped by one of the candidate inner messages itself (XEP-0297 inside) is never to be shown
+            for (const Msg *im : { &in1, &in2 }) {
+                if (!im->neverId.isEmpty() && children.contains(im->neverId)) {
+                    never.append(QJsonObject { { "id", im->neverId }, { "body", im->neverBody } });
+                }
+            }
             e.shown.clear();
             c.inject(msgXml(outer, children));
             QCoreApplication::processEvents();
@@ -452,11 +494,13 @@ void runBehaviour(Ctx &ctx, const QString &caseId, const QJsonObject &b, int nRa
             for (const auto &sh : std::as_const(e.shown)) {
                 const auto &m = sh.msg;
                 shown.append(QJsonObject { { "ch", sh.ch }, { "from", m.from() }, { "to", m.to() }, { "id", m.id() },
-                                           { "body", m.body() }, { "type", typeName(m.type()) }, { "fwd", m.isCarbonForwarded() } });
+                                           { "body", m.body() }, { "type", typeName(m.type()) }, { "fwd", m.isCarbonForwarded() },
+                                           { "priv", m.isPrivate() }, { "stamp", stampOf(m) } });
             }
             ctx.emit_({ { "e", "Recv" }, { "c", cls }, { "w", w }, { "i", ik },
                         { "x", QJsonObject { { "own", e.B }, { "ofrom", outer.from }, { "hasfrom", outer.hasFrom }, { "oto", outer.to },
-                                             { "oid", outer.id }, { "obody", outer.body }, { "otype", outer.type } } },
+                                             { "oid", outer.id }, { "obody", outer.body }, { "otype", outer.type },
+                                             { "opriv", w == "privSent" } } },
                         { "inners", inners }, { "never", never }, { "shown", shown } });
         }
     }
